@@ -1,4 +1,5 @@
 import JmesVerif.Lemmas.Builtins
+import JmesVerif.Lemmas.F64Spec
 /-!
 # C02 — every built-in function computes the value the specification defines
 
@@ -136,6 +137,54 @@ theorem C02_ends_with (s t : String) :
 theorem C02_join (glue : String) (ss : List String) :
     Builtin.pure .join [.str glue, .arr (ss.map .str)] = .ok (.str (glue.intercalate ss)) := join_eq glue ss
 
+/-! ### numeric contracts (the arithmetic of the model is IEEE-754 binary64 by theorem, not only by comparison with hardware)
+
+`Lemmas/F64Spec.lean` proves that the rounding the model performs after every exact rational operation is round-to-nearest, ties to even,
+of IEEE-754 binary64 — nearest among all canonical doubles, overflow to infinity exactly from `2^1024 − 2^970` on — and that it is the
+identity on representable values.  The contracts of `abs`, `floor`, `ceil` follow for every number (no rounding error at all), and `+ − × ÷`
+on finite doubles are the correctly rounded exact results. -/
+
+/-- canonical payloads: what every double that comes from JSON text, from hardware or from the model's own arithmetic satisfies -/
+def Num.Canon : Num → Prop
+  | .flt f => f.Canon
+  | _ => True
+
+theorem Num.toF64_canon (n : Num) (h : n.Canon) : n.toF64.Canon := by
+  cases n with
+  | pos k => exact F64.ofRat_canon _
+  | neg i => exact F64.ofRat_canon _
+  | flt f => exact h
+
+/-- **abs** returns exactly the absolute value (of the double image) -/
+theorem C02_abs (n : Num) (hf : n.toF64.isFinite) :
+    ∃ r : F64, Builtin.pure .abs [.num n] = .ok (.num (.flt r)) ∧ r.toRat = n.toF64.toRat.abs := by
+  have h := F64.abs_spec n.toF64 hf
+  refine ⟨n.toF64.abs, ?_, h.2⟩
+  simp [Builtin.pure, numOfF64, h.1]
+
+/-- **floor** returns exactly the largest integer not above the number — for every finite number, however large -/
+theorem C02_floor (n : Num) (hc : n.Canon) (hf : n.toF64.isFinite) :
+    ∃ r : F64, Builtin.pure .floor [.num n] = .ok (.num (.flt r)) ∧ r.toRat = (n.toF64.toRat.floor : Rat) := by
+  have h := F64.floor_spec n.toF64 (Num.toF64_canon n hc) hf
+  refine ⟨n.toF64.floor, ?_, h.2⟩
+  simp [Builtin.pure, numOfF64, h.1]
+
+/-- **ceil** returns exactly the smallest integer not below the number -/
+theorem C02_ceil (n : Num) (hc : n.Canon) (hf : n.toF64.isFinite) :
+    ∃ r : F64, Builtin.pure .ceil [.num n] = .ok (.num (.flt r)) ∧ r.toRat = (n.toF64.toRat.ceil : Rat) := by
+  have h := F64.ceil_spec' n.toF64 (Num.toF64_canon n hc) hf
+  refine ⟨n.toF64.ceil, ?_, h.2⟩
+  simp [Builtin.pure, numOfF64, h.1]
+
+/-- **the arithmetic behind sum and avg**: each `+` and the final `÷` return the IEEE-754 round-to-nearest-even image of the exact result
+(nearest canonical double, ties to even, infinity exactly on overflow) -/
+theorem C02_add_ieee (a b : F64) (ha : a.isFinite) (hb : b.isFinite) : F64.IEEERounded (a.toRat + b.toRat) (F64.add a b) :=
+  F64.add_ieee a b ha hb
+theorem C02_div_ieee (a b : F64) (ha : a.isFinite) (hb : b.isFinite) (hz : b.isZero = false) :
+    F64.IEEERounded (a.toRat / b.toRat) (F64.div a b) := F64.div_ieee a b ha hb hz
+/-- integers up to 2^53 enter the arithmetic exactly -/
+theorem C02_int_exact (k : Nat) (h : k ≤ 2 ^ 53) : (F64.ofNat k).isFinite ∧ (F64.ofNat k).toRat = (k : Rat) := F64.ofNat_exact k h
+
 /-! non-vacuity -/
 example : Homog [.str "b", .str "a"] := Or.inl (by intro x hx; simp at hx; rcases hx with rfl | rfl <;> exact ⟨_, rfl⟩)
 
@@ -164,3 +213,9 @@ end JmesVerif
 #print axioms JmesVerif.C02_starts_with
 #print axioms JmesVerif.C02_ends_with
 #print axioms JmesVerif.C02_join
+#print axioms JmesVerif.C02_abs
+#print axioms JmesVerif.C02_floor
+#print axioms JmesVerif.C02_ceil
+#print axioms JmesVerif.C02_add_ieee
+#print axioms JmesVerif.C02_div_ieee
+#print axioms JmesVerif.C02_int_exact
